@@ -185,7 +185,8 @@ class PythonNameManager:
         self._global_map = KeyToUniqueNameMap(forced_prefix="self.global_",
                                               start={"<t>": "self.t",
                                                      "<dt>": "self.dt"})
-        self.function_map = KeyToUniqueNameMap(forced_prefix="self._functions.")
+        # The part after the dot has to be an identifier in its own right.
+        self.function_map = KeyToUniqueNameMap(forced_prefix="self._functions.f_")
 
     def name_global(self, name):
         """Return the identifier for a global variable."""
